@@ -39,7 +39,7 @@ Theorem authorize_par_ok_facts cfg s cp uri a :
   exists k pr, key_of s uri = Some k /\ par (st s) k = Some pr /\
     cp = r_client pr /\ (now s <= r_at pr + cf_par_life cfg)%Z /\
     o_err (snd (authorize_core cfg (set_store s (delete_par (st s) k)) (r_cl pr)
-      {| az_client := r_client pr; az_redirect := r_redirect pr; az_scopes := r_rscopes pr; az_granted := az_granted a;
+      {| az_rtype := RCode; az_client := r_client pr; az_redirect := r_redirect pr; az_scopes := r_rscopes pr; az_granted := az_granted a;
          az_aud := r_raud pr; az_gaud := az_gaud a; az_subject := az_subject a;
          az_challenge := if String.eqb (r_challenge pr) "" then az_challenge a else r_challenge pr;
          az_method := if String.eqb (r_method pr) "" then az_method a else r_method pr |})) = "".
@@ -101,7 +101,10 @@ Proof.
   destruct o; cbn [step]; try assumption;
     try (new_flows_tac s FG ltac:(assumption); cbn in *; rewrite FGfact; assumption).
   - unfold authorize. destruct (cf_par_enforced cfg); [assumption|].
-    destruct (clients s (az_client a)) as [cl|]; [|assumption]. now apply AC.
+    destruct (clients s (az_client a)) as [cl|]; [|assumption].
+    destruct (az_rtype a); [now apply AC| |].
+    + destruct (authorize_implicit_effect cfg s cl a) as [_ [_ [_ [Hp _]]]]. now rewrite Hp.
+    + destruct (authorize_hybrid_effect cfg s cl a) as [_ [_ [_ [Hp _]]]]. now rewrite Hp.
   - unfold redeem.
     destruct auth as [c|]; [|assumption]. destruct (clients s c) as [cl|]; [|assumption].
     destruct (negb (args_has (cl_grants cl) ["authorization_code"])); [assumption|].
